@@ -30,6 +30,7 @@ type refBuilder struct {
 	gotos  []*pendingGoto
 	argOverride func(c *Cmd, i int) (interp.Value, bool) // for hoisted args
 	coded bool
+	swQuirk bool
 }
 
 type pendingGoto struct {
@@ -43,12 +44,17 @@ type RefOptions struct {
 	// command (used when arguments are replaced by hoisted labels).
 	ArgValue func(c *Cmd, i int) (interp.Value, bool)
 	Coded    bool // operands are Int-coded atoms
+	// SwitchQuirk builds the alternative reference that explains known
+	// findings C03 #2/#3: trailing body-less cases are dropped (their values
+	// count as "no match"), and a switch whose first trailing body-less entry
+	// is reached before any non-default case was registered is elided.
+	SwitchQuirk bool
 }
 
 // BuildRef builds the reference graph of all scripts of a program. The map
 // gives each script's entry node.
 func BuildRef(scripts []*Script, opt RefOptions) (*Graph, map[*Script]*Node) {
-	b := &refBuilder{g: &Graph{Entries: map[string]*Node{}}, labels: map[*Atom]*Node{}, argOverride: opt.ArgValue, coded: opt.Coded}
+	b := &refBuilder{g: &Graph{Entries: map[string]*Node{}}, labels: map[*Atom]*Node{}, argOverride: opt.ArgValue, coded: opt.Coded, swQuirk: opt.SwitchQuirk}
 	entries := map[*Script]*Node{}
 	for _, s := range scripts {
 		ret := b.g.add(&Node{Kind: NTerm, Term: "return", Desc: "implicit return"})
@@ -191,9 +197,30 @@ func (b *refBuilder) stmt(s Stmt, next, brk, cont *Node) *Node {
 			operand = s.AV.VarName
 		}
 		f := dflt
+		trailing := n // index of the first trailing body-less entry
+		for i := n - 1; i >= 0 && len(s.Cases[i].Body) == 0; i-- {
+			trailing = i
+		}
+		if b.swQuirk && trailing < n {
+			nonDefaultBefore := 0
+			for i := 0; i < trailing; i++ {
+				if !s.Cases[i].Default {
+					nonDefaultBefore++
+				}
+			}
+			if nonDefaultBefore == 0 {
+				if s.AV != nil {
+					return b.g.add(&Node{Kind: NEvent, Text: CmdText(s.AV.Name.Val(), s.AV.Args), Next: next, Desc: "autovar switch (elided)"})
+				}
+				return next
+			}
+		}
 		for i := n - 1; i >= 0; i-- {
 			cs := s.Cases[i]
 			if cs.Default {
+				continue
+			}
+			if b.swQuirk && i >= trailing {
 				continue
 			}
 			f = b.g.add(&Node{Kind: NTest, Test: &Test{Kind: TCase, A: operand, B: JoinToks(cs.Value), Coded: b.coded}, T: target[i], F: f, Desc: "case"})
